@@ -26,7 +26,20 @@ typedef int MPI_Op;
 #define MPI_FLOAT 4
 #define MPI_DOUBLE 5
 #define MPI_LONG_DOUBLE 6
+#define MPI_INT 7
+#define MPI_LONG 8
+#define MPI_LONG_LONG 9
+#define MPI_CHAR 10
+#define MPI_UNSIGNED_CHAR 11
+#define MPI_BYTE 12
+#define MPI_C_BOOL 13
+#define MPI_CXX_BOOL 14
 #define MPI_SUM 1
+#define MPI_MAX 2
+#define MPI_MIN 3
+#define MPI_LAND 4
+#define MPI_LOR 5
+#define MPI_PROD 6
 #define MPI_SUCCESS 0
 #define MPI_ERR_OTHER 15
 #define MPI_IN_PLACE ((void*)1)
@@ -37,6 +50,8 @@ struct VfCollRec
     MPI_Datatype type;
     MPI_Op op;
     bool in_place;
+    int kind;       // 0 allreduce, 1 bcast, 2 barrier
+    int root;
 };
 
 struct VfWorld
@@ -50,7 +65,7 @@ struct VfWorld
     int arrived = 0, remaining = 0, finished = 0;
     std::uint64_t generation = 0;
     std::vector<void*> bufs;
-    std::vector<int> counts, types, order;
+    std::vector<int> counts, types, order, kinds, roots, ops;
     std::vector<unsigned char> result;
     // verdict state
     bool aborted = false;
@@ -100,7 +115,20 @@ inline int MPI_Comm_size(MPI_Comm c, int* size)
     return MPI_SUCCESS;
 }
 
-template <typename X> inline void vf_mpi_reduce(VfWorld* w, std::vector<int> const& red, int count)
+template <typename X> inline X vf_mpi_op(X a, X b, MPI_Op op)
+{
+    switch (op)
+    {
+    case MPI_MAX: return a < b ? b : a;
+    case MPI_MIN: return b < a ? b : a;
+    case MPI_LAND: return X(a && b);
+    case MPI_LOR: return X(a || b);
+    case MPI_PROD: return X(a * b);
+    default: return X(a + b);
+    }
+}
+
+template <typename X> inline void vf_mpi_reduce(VfWorld* w, std::vector<int> const& red, int count, MPI_Op op = MPI_SUM)
 {
     w->result.assign(sizeof(X) * (count > 0 ? count : 0), 0);
     X* out = reinterpret_cast<X*>(w->result.data());
@@ -110,7 +138,7 @@ template <typename X> inline void vf_mpi_reduce(VfWorld* w, std::vector<int> con
         if (!tree)
         {
             X acc = static_cast<X*>(w->bufs[red[0]])[k];
-            for (std::size_t j = 1; j < red.size(); ++j) acc = acc + static_cast<X*>(w->bufs[red[j]])[k];
+            for (std::size_t j = 1; j < red.size(); ++j) acc = vf_mpi_op<X>(acc, static_cast<X*>(w->bufs[red[j]])[k], op);
             out[k] = acc;
         }
         else
@@ -118,7 +146,7 @@ template <typename X> inline void vf_mpi_reduce(VfWorld* w, std::vector<int> con
             std::vector<X> v(red.size());
             for (std::size_t j = 0; j < red.size(); ++j) v[j] = static_cast<X*>(w->bufs[red[j]])[k];
             for (std::size_t step = 1; step < v.size(); step *= 2)
-                for (std::size_t j = 0; j + step < v.size(); j += 2 * step) v[j] = v[j] + v[j + step];
+                for (std::size_t j = 0; j + step < v.size(); j += 2 * step) v[j] = vf_mpi_op<X>(v[j], v[j + step], op);
             out[k] = v[0];
         }
     }
@@ -133,6 +161,11 @@ inline std::size_t vf_mpi_sizeof(MPI_Datatype t)
     case MPI_UNSIGNED_LONG_LONG: return sizeof(unsigned long long);
     case MPI_FLOAT: return sizeof(float);
     case MPI_DOUBLE: return sizeof(double);
+    case MPI_INT: return sizeof(int);
+    case MPI_LONG: return sizeof(long);
+    case MPI_LONG_LONG: return sizeof(long long);
+    case MPI_CHAR: case MPI_UNSIGNED_CHAR: case MPI_BYTE: return 1;
+    case MPI_C_BOOL: case MPI_CXX_BOOL: return sizeof(bool);
     default: return sizeof(long double);
     }
 }
@@ -143,7 +176,8 @@ inline void vf_mpi_abort(VfWorld* w, std::string const& why)
     w->cv.notify_all();
 }
 
-inline int MPI_Allreduce(const void* send, void* recv, int count, MPI_Datatype type, MPI_Op op, MPI_Comm w)
+// one rendezvous for all collectives: kind 0 allreduce, 1 bcast (recv is the buffer on every rank), 2 barrier
+inline int vf_mpi_collective(int kind, int root, const void* send, void* recv, int count, MPI_Datatype type, MPI_Op op, MPI_Comm w)
 {
     if (w == vf_mpi_comm_world())
     {
@@ -165,14 +199,17 @@ inline int MPI_Allreduce(const void* send, void* recv, int count, MPI_Datatype t
         }
     }
     std::unique_lock<std::mutex> lk(w->m);
-    VfCollRec rec = {count, type, op, send == MPI_IN_PLACE};
+    VfCollRec rec = {count, type, op, send == MPI_IN_PLACE, kind, root};
     w->log[rank].push_back(rec);
-    if (send != MPI_IN_PLACE && count > 0) std::memcpy(recv, send, vf_mpi_sizeof(type) * count);
+    if (kind == 0 && send != MPI_IN_PLACE && count > 0) std::memcpy(recv, send, vf_mpi_sizeof(type) * count);
     w->cv.wait(lk, [&] { return !w->leaving || w->aborted; });
     if (w->aborted) return MPI_ERR_OTHER;
     w->bufs[rank] = recv;
     w->counts[rank] = count;
     w->types[rank] = type;
+    w->kinds[rank] = kind;
+    w->roots[rank] = root;
+    w->ops[rank] = op;
     w->order.push_back(rank);
     ++w->arrived;
     if (w->arrived + w->finished == w->P && w->finished > 0)
@@ -184,9 +221,9 @@ inline int MPI_Allreduce(const void* send, void* recv, int count, MPI_Datatype t
     {
         for (int r = 0; r < w->P; ++r)
         {
-            if (w->counts[r] != count || w->types[r] != type)
+            if (w->counts[r] != count || w->types[r] != type || w->kinds[r] != kind || w->roots[r] != root || w->ops[r] != op)
             {
-                vf_mpi_abort(w, "collective mismatch: count/datatype differ between ranks");
+                vf_mpi_abort(w, "collective mismatch: operation/count/datatype/root differ between ranks");
                 return MPI_ERR_OTHER;
             }
         }
@@ -200,14 +237,26 @@ inline int MPI_Allreduce(const void* send, void* recv, int count, MPI_Datatype t
         for (int r : red) { h ^= std::uint64_t(r) + 101; h *= 1099511628211ULL; }
         w->schedules.insert(h);
         ++w->collectives;
-        switch (type)
+        if (kind == 1)
         {
-        case MPI_UNSIGNED: vf_mpi_reduce<unsigned>(w, red, count); break;
-        case MPI_UNSIGNED_LONG: vf_mpi_reduce<unsigned long>(w, red, count); break;
-        case MPI_UNSIGNED_LONG_LONG: vf_mpi_reduce<unsigned long long>(w, red, count); break;
-        case MPI_FLOAT: vf_mpi_reduce<float>(w, red, count); break;
-        case MPI_DOUBLE: vf_mpi_reduce<double>(w, red, count); break;
-        default: vf_mpi_reduce<long double>(w, red, count); break;
+            if (root < 0 || root >= w->P) { vf_mpi_abort(w, "bcast: invalid root"); return MPI_ERR_OTHER; }
+            w->result.assign(vf_mpi_sizeof(type) * (count > 0 ? count : 0), 0);
+            if (count > 0) std::memcpy(w->result.data(), w->bufs[root], w->result.size());
+        }
+        else if (kind == 0) switch (type)
+        {
+        case MPI_UNSIGNED: vf_mpi_reduce<unsigned>(w, red, count, op); break;
+        case MPI_UNSIGNED_LONG: vf_mpi_reduce<unsigned long>(w, red, count, op); break;
+        case MPI_UNSIGNED_LONG_LONG: vf_mpi_reduce<unsigned long long>(w, red, count, op); break;
+        case MPI_FLOAT: vf_mpi_reduce<float>(w, red, count, op); break;
+        case MPI_DOUBLE: vf_mpi_reduce<double>(w, red, count, op); break;
+        case MPI_INT: vf_mpi_reduce<int>(w, red, count, op); break;
+        case MPI_LONG: vf_mpi_reduce<long>(w, red, count, op); break;
+        case MPI_LONG_LONG: vf_mpi_reduce<long long>(w, red, count, op); break;
+        case MPI_CHAR: vf_mpi_reduce<char>(w, red, count, op); break;
+        case MPI_UNSIGNED_CHAR: case MPI_BYTE: vf_mpi_reduce<unsigned char>(w, red, count, op); break;
+        case MPI_C_BOOL: case MPI_CXX_BOOL: vf_mpi_reduce<bool>(w, red, count, op); break;
+        default: vf_mpi_reduce<long double>(w, red, count, op); break;
         }
         w->leaving = true;
         w->remaining = w->P;
@@ -220,7 +269,7 @@ inline int MPI_Allreduce(const void* send, void* recv, int count, MPI_Datatype t
         w->cv.wait(lk, [&] { return w->generation != gen || w->aborted; });
         if (w->aborted) return MPI_ERR_OTHER;
     }
-    if (count > 0) std::memcpy(recv, w->result.data(), vf_mpi_sizeof(type) * count);
+    if (kind != 2 && count > 0) std::memcpy(recv, w->result.data(), vf_mpi_sizeof(type) * count);
     if (--w->remaining == 0)
     {
         w->leaving = false;
@@ -229,6 +278,19 @@ inline int MPI_Allreduce(const void* send, void* recv, int count, MPI_Datatype t
         w->cv.notify_all();
     }
     return MPI_SUCCESS;
+}
+
+inline int MPI_Allreduce(const void* send, void* recv, int count, MPI_Datatype type, MPI_Op op, MPI_Comm w)
+{
+    return vf_mpi_collective(0, 0, send, recv, count, type, op, w);
+}
+inline int MPI_Bcast(void* buffer, int count, MPI_Datatype type, int root, MPI_Comm w)
+{
+    return vf_mpi_collective(1, root, MPI_IN_PLACE, buffer, count, type, 0, w);
+}
+inline int MPI_Barrier(MPI_Comm w)
+{
+    return vf_mpi_collective(2, 0, MPI_IN_PLACE, nullptr, 0, MPI_BYTE, 0, w);
 }
 
 inline VfWorld* vf_mpi_comm_world()
@@ -259,6 +321,9 @@ inline void vf_mpi_run(VfWorld& w, int P, std::uint64_t seed, std::function<void
     w.bufs.assign(P, nullptr);
     w.counts.assign(P, 0);
     w.types.assign(P, 0);
+    w.kinds.assign(P, 0);
+    w.roots.assign(P, 0);
+    w.ops.assign(P, 0);
     w.log.assign(P, std::vector<VfCollRec>());
     std::vector<std::thread> th;
     for (int r = 0; r < P; ++r)
